@@ -196,6 +196,18 @@ def obligations(tier):
             if ncomp == 1:
                 add("cp_plsr:CP_PLSR.fit", f"X-order={N + 1}", setup_s, call_s, post_s, dict(x_order=N + 1),
                     "centred data (hence loadings and predictions-minus-offset) invariant under constant shifts")
+    # ====================================================================== 'transform(X, Y) of the training data returns the fitted scores' holds for the SECOND call too only
+    # if the first one leaves the caller's arrays alone (transform centres and deflates Y in place - on its own copy): the frame obligation of C15 on
+    # CP_PLSR.fit / transform(X, Y) / predict is discharged here too (a GOb subclass, so that the effect properties do not wrap it a second time)
+    from . import c15 as _c15
+    class _FrameGOb(GOb):
+        pass
+    for ob in _c15.decomposition_obligations(tier):
+        if "regression.cp_plsr:CP_PLSR/" in ob.name and type(ob) is GOb:
+            o_ = _FrameGOb(PID, f"{PID}/" + ob.name.split("/", 1)[1], ob.function, ob.setup, ob.call, ob.post, tenalg=ob.tenalg, assumptions=ob.assumptions, side_nonzero=ob.side_nonzero,
+                           instance=dict(ob.instance, source="C15"), clause=ob.clause, forall=list(ob.forall), enumerated=list(ob.enumerated))
+            o_.backend_label = "write-log over the alias model + container identity (all paths)"
+            obs.append(o_)
     # ====================================================================== bounded stand-in (never counted as proved): end-to-end native survey, including the
     # clauses no obligation above reaches (unit norm of the Y loadings, equivariance under a permutation of the samples, several PLS components)
     from .c09 import BoundedOb
